@@ -5,7 +5,7 @@ CONSTANTS
   SweepCovers = TRUE
   P = 6
   MaxNon = 4
-  Focus = FALSE
+  Focus = "none"
   MaxRef = 3
 INVARIANT Sorted
 INVARIANT Disjoint
